@@ -72,7 +72,9 @@ def build(spec):
         if nm in ACCEPT:
             exp.append(h.upper())
     tail = spec.get("tail", 480)
-    if tail < 480:
+    if tail < 480 and spec["gap"] == "3L" and len(names) >= 2:
+        pass        # the long gap between the frames already holds a noise-only aligned 100 us window: keep offset and tail exact
+    elif tail < 480:
         # the noise estimator takes the quietest ALIGNED 100 us (200-sample) window of the buffer: with a short tail a
         # noise-only window must exist elsewhere, so 400 samples of lead noise are prepended (real buffers hold 100 ms)
         buf = [next(ng) for _ in range(400)] + buf
@@ -171,6 +173,15 @@ def gen(ctx):
                         hs.append([{"frames": [nm], "offset": off, "amps": [a], "db": db, "shape": SHAPES[k % 3], "gap": "L",
                                     "nseed": ctx.seed + 1, "tail": tail}])
                         hs.append([{"frames": ["DF17a", nm], "offset": off, "amps": [1.0, a], "db": db, "shape": SHAPES[k % 3], "gap": "L+1",
+                                    "nseed": ctx.seed + 1, "tail": tail}])
+    # first frame exactly at the start of the buffer AND last frame flush with (or very near) its end
+    for a_, b_ in itertools.product(["DF17a", "DF4", "DF11", "DF20", "DF5zeros", "DF17ones"], repeat=2):
+        for off in (0, 1):
+            for tail in (0, 1, 2, 113):
+                for amps in ((1.0, 1.4), (1.4, 0.3), (0.5, 0.5), (0.3, 1.4)):
+                    for db in (None, -20):
+                        k += 1
+                        hs.append([{"frames": [a_, b_], "offset": off, "amps": list(amps), "db": db, "shape": SHAPES[k % 3], "gap": "3L",
                                     "nseed": ctx.seed + 1, "tail": tail}])
     # two frames
     sub = ["DF17a", "DF17ones", "DF20", "DF4", "DF5zeros", "DF11alt", "DF17badcrc", "DF18"]
